@@ -33,9 +33,10 @@ let escape (s : string) : string =
 
 let tkind_of = function
   | "Function" -> KFunction | "Let" -> KLet | "LetRec" -> KLetRec | "Assign" -> KAssign | "Arrow" -> KArrow
-  | "OpSum" | "OpMinus" | "OpProduct" | "OpDivide" | "OpModulo" | "OpExponent" | "OpAnd" | "OpOr" | "OpEqual"
-  | "OpNotEqual" | "OpLessThan" | "OpGreaterThan" | "OpLessEqual" | "OpGreaterEqual" | "OpAt" -> KOp false
-  | "OpPipe" | "OpPipeMacro" -> KOp true
+  | "OpSum" | "OpMinus" -> KOp (false, true)
+  | "OpProduct" | "OpDivide" | "OpModulo" | "OpExponent" | "OpAnd" | "OpOr" | "OpEqual"
+  | "OpNotEqual" | "OpLessThan" | "OpGreaterThan" | "OpLessEqual" | "OpGreaterEqual" | "OpAt" -> KOp (false, false)
+  | "OpPipe" | "OpPipeMacro" -> KOp (true, false)
   | "LambdaArgBeginEnd" -> KLambdaBar | "Comma" -> KComma | "If" -> KIf | "Else" -> KElse
   | "BlockBegin" -> KBlockBegin | "BlockEnd" -> KBlockEnd | "ParenBegin" -> KParenBegin | "ParenEnd" -> KParenEnd
   | "ArrayBegin" -> KArrayBegin | "ArrayEnd" -> KArrayEnd
@@ -47,8 +48,10 @@ let skind_of = function
   | "Program" -> SProgram | "Statement" -> SStatement | "FunctionDecl" -> SFunctionDecl | "LetDecl" -> SLetDecl
   | "LetRecDecl" -> SLetRecDecl | "AssignExpr" -> SAssignExpr | "BinaryExpr" -> SBinaryExpr | "UnaryExpr" -> SUnaryExpr
   | "CallExpr" -> SCallExpr | "LambdaExpr" -> SLambdaExpr | "IfExpr" -> SIfExpr | "BlockExpr" -> SBlockExpr
-  | "TupleExpr" | "ArrayExpr" | "ParamList" | "ArgList" | "TuplePattern" | "RecordPattern" -> SGroupedList false
-  | "TupleType" | "RecordType" -> SGroupedList true
+  | "TupleExpr" | "ParamList" | "ArgList" | "TuplePattern" -> SGroupedList (false, true)
+  | "ArrayExpr" | "RecordPattern" -> SGroupedList (false, false)
+  | "TupleType" -> SGroupedList (true, true)
+  | "RecordType" -> SGroupedList (true, false)
   | "ParenExpr" -> SParenExpr
   | "RecordExpr" -> SRecordExpr | "MacroExpansion" -> SMacroExpansion | "QualifiedPath" -> SQualifiedPath
   | "IntLiteral" | "FloatLiteral" | "StringLiteral" | "SelfLiteral" | "NowLiteral" | "SampleRateLiteral"
